@@ -579,4 +579,214 @@ Section Exact.
     - pose proof (resolve_wf _ _ _ _ Hwf Er) as Hd. pose proof (names_wf es Hd) as Hf.
       rewrite Forall_forall in Hf. apply Hf, Hn.
   Qed.
+
+  (** ** one iteration of the component loop *)
+  Definition model_comp (f : nat) (paths : list bytes) (comp sep rest : bytes) : gres :=
+    let needdir := negb (beqb sep []) in
+    match unquote_lit (syms_of comp) false with
+    | Some name =>
+      let ms := flat_map (fun p => let p' := if beqb p [46] then name else p ++ name in
+                                   if exists_path root cwd p' needdir then [p' ++ sep] else []) paths in
+      match ms with
+      | [] => GOk []
+      | _ => glob_loop root cwd f (sort_bytes ms) rest
+      end
+    | None =>
+      match compile_model [comp] (N.lor Extracted.mode_Prefix Extracted.mode_Suffix) with
+      | CErr => GErr
+      | CUnmodelled => GUnmodelled
+      | COk alts =>
+        let its := match alts with [a] => map fst a | _ => [] end in
+        let step (acc : option (list bytes)) (p : bytes) : option (list bytes) :=
+          match acc with
+          | None => None
+          | Some ms =>
+            match glob_dir root cwd p its with
+            | inr _ => None
+            | inl None => None
+            | inl (Some names) =>
+              Some (ms ++ flat_map (fun n => let n' := if beqb p [46] then n else p ++ n in
+                                             if negb needdir || exists_path root cwd n' true then [n' ++ sep] else []) names)
+            end
+          end in
+        match fold_left step paths (Some []) with
+        | None => GErr
+        | Some [] => GOk []
+        | Some ms => glob_loop root cwd f (sort_bytes ms) rest
+        end
+      end
+    end.
+
+  Lemma glob_loop_unfold f paths pattern : pattern <> [] ->
+    glob_loop root cwd (S f) paths pattern =
+    let '(i, w, sep) := match index_sep (S (length pattern)) pattern 0 with
+                        | Some (i, w, sp) => (i, w, sp)
+                        | None => (length pattern, 0%nat, [])
+                        end in
+    let rest := skipn (i + w) pattern in
+    match i with
+    | O => glob_loop root cwd f (if Nat.ltb 0 w then map (fun p => p ++ sep) paths else paths) rest
+    | _ => model_comp f paths (firstn i pattern) sep rest
+    end.
+  Proof. destruct pattern; [congruence|]. intros _. reflexivity. Qed.
+
+  Lemma spec_loop_unfold f acc pattern : pattern <> [] ->
+    spec_loop root cwd (S f) acc pattern =
+    let '(i, w, sep) := match index_sep (S (length pattern)) pattern 0 with
+                        | Some (i, w, sp) => (i, w, sp)
+                        | None => (length pattern, 0%nat, [])
+                        end in
+    let rest := skipn (i + w) pattern in
+    match i with
+    | O => spec_loop root cwd f (option_map (map (fun p => p ++ sep)) acc) rest
+    | _ => spec_loop root cwd f (spec_step root cwd acc (firstn i pattern) sep) rest
+    end.
+  Proof. destruct pattern; [congruence|]. intros _. reflexivity. Qed.
+
+  Lemma spec_loop_nil : forall f pat, spec_loop root cwd f (Some []) pat = Some [].
+  Proof.
+    induction f as [|f IH]; intros pat; [reflexivity|].
+    destruct pat as [|c pt]; [reflexivity|]. rewrite spec_loop_unfold by discriminate.
+    destruct (index_sep _ _ _) as [[[i w] sp]|]; cbv beta iota zeta.
+    - destruct i; apply IH.
+    - cbn [length]. apply IH.
+  Qed.
+
+  Definition conclusion (f : nat) (acc : option (list bytes)) (rest : bytes) (res : list bytes) : Prop :=
+    exists l', spec_loop root cwd f acc rest = Some l' /\ Permutation res l' /\ ascending res.
+
+  Definition continuation (f : nat) (rest : bytes) (res : list bytes) : Prop :=
+    forall ms l', Permutation ms l' -> (rest <> [] -> uniform ms) ->
+      glob_loop root cwd f (sort_bytes ms) rest = GOk res -> conclusion f (Some l') rest res.
+
+  Lemma finish (G : bytes -> list bytes) f paths l sep rest res :
+    (sep = [47] /\ (forall pre, Forall (fun q => exists n, q = pre ++ n ++ [47] /\ slashes n = 0%nat) (G pre))) \/ rest = [] ->
+    shape paths -> Permutation (map norm paths) l ->
+    match flat_map G (map norm paths) with
+    | [] => GOk []
+    | _ => glob_loop root cwd f (sort_bytes (flat_map G (map norm paths))) rest
+    end = GOk res ->
+    continuation f rest res ->
+    conclusion f (Some (flat_map G l)) rest res.
+  Proof.
+    intros Hsep Hsh HP H K.
+    assert (HP' : Permutation (flat_map G (map norm paths)) (flat_map G l)) by (apply Permutation_flat_map, HP).
+    destruct (flat_map G (map norm paths)) as [|m ms] eqn:Em.
+    - inversion H; subst. apply Permutation_nil in HP'. rewrite HP'. exists []. split; [apply spec_loop_nil|]. split; constructor.
+    - rewrite <- Em in *. apply (K _ _ HP'); [|exact H].
+      intros Hr. destruct Hsep as [[-> HG]|Hn]; [|congruence].
+      destruct (shape_norm paths Hsh) as (c & Hc & _). exists (S c). apply flat_uniform; assumption.
+  Qed.
+
+  Lemma comp_exact f paths comp sep rest l res :
+    (sep = [47] /\ slashes comp = 0%nat) \/ (sep = [] /\ rest = []) ->
+    shape paths -> Permutation (map norm paths) l ->
+    model_comp f paths comp sep rest = GOk res ->
+    continuation f rest res ->
+    conclusion f (spec_step root cwd (Some l) comp sep) rest res.
+  Proof.
+    intros Hsep Hsh HP H K. unfold model_comp in H. cbv zeta in H.
+    destruct (unquote_lit (syms_of comp) false) as [name|] eqn:Eu.
+    - rewrite lit_model in H. rewrite (lit_spec comp sep name l Eu).
+      apply (finish (lit_G name sep) f paths l sep rest res); try assumption.
+      destruct Hsep as [[-> Hc]|[_ ->]]; [left|right; reflexivity]. split; [reflexivity|].
+      intros pre. apply lit_G_names. eapply literal_no_slash; eassumption.
+    - destruct (compile_model [comp] (N.lor Extracted.mode_Prefix Extracted.mode_Suffix)) as [alts| |] eqn:Ec; try discriminate.
+      destruct (compile_single _ _ _ Ec) as (a & -> & _).
+      change (fold_left _ paths (Some [])) with (fold_left (mstep (map fst a) sep) paths (Some [])) in H.
+      destruct (fold_left (mstep (map fst a) sep) paths (Some [])) as [ms|] eqn:Ef; [|discriminate].
+      apply model_fold in Ef as [Ems HF]. cbn [app] in Ems.
+      destruct (shape_norm paths Hsh) as (c & _ & Hnp).
+      assert (E : ms = flat_map (pat_G comp sep) (map norm paths)).
+      { rewrite Ems, flat_map_map. apply flat_map_ext_in. intros p Hp.
+        rewrite Forall_forall in HF, Hnp. destruct (HF p Hp) as [names Hg]. destruct (Hnp p Hp) as [_ Hpp].
+        eapply pat_pointwise; eassumption. }
+      rewrite (pat_spec comp sep a l Eu Ec).
+      apply (finish (pat_G comp sep) f paths l sep rest res); try assumption.
+      + destruct Hsep as [[-> Hc]|[_ ->]]; [left|right; reflexivity]. split; [reflexivity|].
+        intros pre. apply pat_G_names.
+      + rewrite <- E. destruct ms; exact H.
+  Qed.
+
+  (** ** the loop *)
+  Definition inv (pattern : bytes) (paths l : list bytes) : Prop :=
+    (paths = [[46]] /\ l = [[]] /\ pattern <> [] /\
+     forall w sp, index_sep (S (length pattern)) pattern 0 <> Some (0%nat, w, sp))
+    \/ (Permutation paths l /\ (pattern <> [] -> uniform paths)).
+
+  Lemma inv_shape pattern paths l : inv pattern paths l -> pattern <> [] -> shape paths /\ Permutation (map norm paths) l.
+  Proof.
+    intros [(-> & -> & _ & _)|[HP Hu]] Hne.
+    - split; [left; reflexivity|reflexivity].
+    - specialize (Hu Hne). split; [right; exact Hu|].
+      destruct Hu as [c Hc]. assert (E : map norm paths = paths).
+      { clear HP. induction Hc as [|p ps [He _] Hc IH]; [reflexivity|]. cbn. rewrite IH. unfold norm. now rewrite (ends_slash_not_dot p He). }
+      rewrite E. exact HP.
+  Qed.
+
+  Lemma uniform_perm a b : Permutation a b -> uniform a -> uniform b.
+  Proof. intros P [c H]. exists c. eapply Permutation_Forall; eassumption. Qed.
+
+  Lemma uniform_sep l : uniform l -> uniform (map (fun p => p ++ [47]) l).
+  Proof.
+    intros [c H]. exists (S c). induction H as [|p ps [He Hc] H IH]; cbn; constructor; [|exact IH]. split.
+    - exists p. reflexivity.
+    - rewrite slashes_app, Hc. cbn. lia.
+  Qed.
+
+  Lemma loop_exact : forall f pattern paths l res,
+    (length pattern < f)%nat -> inv pattern paths l -> ascending paths ->
+    glob_loop root cwd f paths pattern = GOk res -> conclusion f (Some l) pattern res.
+  Proof.
+    induction f as [|f IH]; intros pattern paths l res Hf HI Ha H; [lia|].
+    destruct pattern as [|c0 pt] eqn:Ep.
+    - cbn in H. inversion H; subst. destruct HI as [(_ & _ & Hne & _)|[HP _]]; [congruence|]. exists l. cbn. auto.
+    - rewrite <- Ep in *. assert (Hne : pattern <> []) by (rewrite Ep; discriminate). clear Ep c0 pt.
+      rewrite (glob_loop_unfold f paths pattern Hne) in H. unfold conclusion. rewrite (spec_loop_unfold f (Some l) pattern Hne).
+      assert (Cont : forall rest, (length rest < f)%nat -> continuation f rest res).
+      { intros rest Hr ms l' HP Hu Hg. apply (IH rest (sort_bytes ms) l' res Hr); [|apply sort_bytes_ascending|exact Hg].
+        right. split.
+        - eapply Permutation_trans; [apply Permutation_sym, sort_bytes_permutation|exact HP].
+        - intros Hn. eapply uniform_perm; [apply sort_bytes_permutation|]. apply Hu, Hn. }
+      destruct (inv_shape _ _ _ HI Hne) as [Hsh HP].
+      destruct (index_sep (S (length pattern)) pattern 0) as [[[i w] sp]|] eqn:Ei; cbv beta iota zeta in *.
+      + pose proof (index_sep_spec _ _ _ _ _ _ Ei) as (-> & k & -> & Hk & Hs & Hw). cbn [Nat.add] in *.
+        assert (Hrest : (length (skipn (k + w) pattern) < f)%nat) by (rewrite skipn_length; lia).
+        destruct k as [|k].
+        * (* the pattern starts with a separator *)
+          replace (Nat.ltb 0 w) with true in H by (symmetry; apply Nat.ltb_lt; lia).
+          destruct HI as [(_ & _ & _ & Hno)|[HPm Hu]]; [exfalso; eapply Hno; exact Ei|]. specialize (Hu Hne).
+          apply (IH (skipn (0 + w) pattern) (map (fun p => p ++ [47]) paths) (map (fun p => p ++ [47]) l) res Hrest); [|apply map_sep_asc; assumption|exact H].
+          right. split; [apply Permutation_map, HPm|]. intros _. apply uniform_sep, Hu.
+        * apply (comp_exact f paths (firstn (S k) pattern) [47] _ l res); try assumption; [left; auto|].
+          apply Cont, Hrest.
+      + (* no separator: the last component *)
+        assert (El : length pattern = S (length pattern - 1)) by (destruct pattern; [congruence|cbn; lia]).
+        rewrite El in H |- *. rewrite <- El in H |- *.
+        rewrite Nat.add_0_r, skipn_all in H |- *.
+        apply (comp_exact f paths _ [] [] l res); try assumption; [right; auto|].
+        apply Cont. cbn. lia.
+  Qed.
+
+  (** ** the theorem *)
+  Theorem glob_exact pattern paths :
+    glob_model root cwd pattern = GOk paths -> glob_spec root cwd pattern = Some paths.
+  Proof.
+    unfold glob_model, glob_spec. destruct pattern as [|c0 pt] eqn:Ep; [intros H; inversion H; reflexivity|].
+    rewrite <- Ep. assert (Hne : pattern <> []) by (rewrite Ep; discriminate). clear Ep c0 pt.
+    assert (Fin : forall pat paths0 l0, (pat = pattern \/ True) -> inv pat paths0 l0 -> ascending paths0 ->
+              glob_loop root cwd (S (length pat)) paths0 pat = GOk paths ->
+              option_map sort_bytes (spec_loop root cwd (S (length pat)) (Some l0) pat) = Some paths).
+    { intros pat paths0 l0 _ HI Ha H. destruct (loop_exact (S (length pat)) pat paths0 l0 paths (Nat.lt_succ_diag_r _) HI Ha H) as (l' & -> & HP & Hasc).
+      cbn [option_map]. f_equal. apply asc_perm_eq; [apply sort_bytes_ascending|exact Hasc|].
+      eapply Permutation_trans; [apply Permutation_sym, sort_bytes_permutation|apply Permutation_sym, HP]. }
+    destruct (index_sep (S (length pattern)) pattern 0) as [[[i w] sp]|] eqn:Ei.
+    - destruct i as [|i].
+      + apply Fin; [right; exact I| |constructor].
+        right. split; [reflexivity|]. intros _. exists 1%nat. repeat constructor. exists []. reflexivity.
+      + apply Fin; [left; reflexivity| |constructor].
+        left. repeat split; try assumption. intros w' sp' E. rewrite Ei in E. discriminate.
+    - apply Fin; [left; reflexivity| |constructor].
+      left. repeat split; try assumption. intros w' sp' E. rewrite Ei in E. discriminate.
+  Qed.
 End Exact.
